@@ -60,14 +60,17 @@ def build_plain(c):
                               ShallowHistoryState, DeepHistoryState, Transition)
     names = {i: 's%02d' % i for i in range(1, c['n'] + 1)}
 
-    def code(d):
+    def code(d, tr=False):
         lines = []
+        if tr:      # a statechart that changes the (mutable) payload it was handed, in place
+            lines.append("if isinstance(getattr(event, 'v', None), list): event.v.append(0)")
         if d['incx']:
             lines.append('x = x + %d' % d['incx'])
+            lines.append('w = w + [0] * %d' % d['incx'])
         for s in d['sends']:
             lines.append("send('e%d'%s)" % (s['ev'], ', v=%d' % s['par'] if s['par'] else ''))
         return '\n'.join(lines) or None
-    sc = Statechart('bdd', preamble='x = 0')
+    sc = Statechart('bdd', preamble='x = 0\nw = []')
     pending, added = list(range(1, c['n'] + 1)), set()
     while pending:
         s = [x for x in pending if c['parent'][x - 1] == 0 or c['parent'][x - 1] in added][0]
@@ -91,7 +94,7 @@ def build_plain(c):
     for t in c['trans']:
         g = 'x < %d' % t['ga'] if t['gk'] == 'xlt' else None
         sc.add_transition(Transition(names[t['src']], names[t['tgt']] if t['tgt'] else None,
-                                     event='e%d' % t['ev'] if t['ev'] else None, guard=g, action=code(t['act'])))
+                                     event='e%d' % t['ev'] if t['ev'] else None, guard=g, action=code(t['act'], tr=True)))
     return sc, names
 
 
@@ -99,8 +102,12 @@ def step_text(st, names):
     k, a, b, n = st['kind'], st['a'], st['b'], st['n']
     if k == 'send':
         return 'I send event e%d' % a + (' with v=%d' % b if b else '')
+    if k == 'sendl':
+        return 'I send event e%d with v=%s' % (a, [0] * b)
+    if k in ('w_eq', 'w_neq'):
+        return 'variable w %s %s' % ('equals' if k == 'w_eq' else 'does not equal', [0] * a)
     if k == 'wait':
-        return 'I wait %d seconds' % a
+        return 'I wait %d second%s' % (a, '' if a == 1 and (a + b + n) % 2 else 's')
     if k == 'nothing':
         return 'I do nothing'
     if k == 'repeat':
@@ -210,8 +217,10 @@ def main(prop, tier, seed, replay_path=None):
                     r_ = rng.random()
                     if r_ < 0.55 or not h:
                         kw = rng.choice(['given', 'when', 'when'])
-                        k = rng.choice(['send', 'send', 'send', 'wait', 'nothing', 'nothing', 'repeat', 'reproduce'])
-                        if k == 'send':
+                        k = rng.choice(['send', 'send', 'send', 'wait', 'nothing', 'nothing', 'repeat', 'reproduce', 'sendl'])
+                        if k == 'sendl':
+                            h.append(dict(kw=kw, kind='sendl', a=rng.choice(c['events']), b=rng.choice([0, 0, 1]), n=0))
+                        elif k == 'send':
                             h.append(dict(kw=kw, kind='send', a=rng.choice(c['events']), b=rng.choice([0, 7]), n=0))
                         elif k == 'wait':
                             h.append(dict(kw=kw, kind='wait', a=rng.choice([1, 2]), b=0, n=0))
@@ -222,8 +231,10 @@ def main(prop, tier, seed, replay_path=None):
                     else:
                         k = rng.choice(['entered', 'not_entered', 'exited', 'not_exited', 'active', 'not_active', 'fired',
                                         'fired', 'not_fired', 'no_event', 'var_eq', 'var_neq', 'expr_holds',
-                                        'expr_not_holds', 'final', 'not_final'])
-                        if k in ('entered', 'not_entered', 'exited', 'not_exited', 'active', 'not_active'):
+                                        'expr_not_holds', 'final', 'not_final', 'w_eq', 'w_neq'])
+                        if k in ('w_eq', 'w_neq'):
+                            h.append(dict(kw='then', kind=k, a=rng.choice([0, 0, 1, 2]), b=0, n=0))
+                        elif k in ('entered', 'not_entered', 'exited', 'not_exited', 'active', 'not_active'):
                             h.append(dict(kw='then', kind=k, a=rng.randint(1, c['n']), b=0, n=0))
                         elif k == 'fired':
                             h.append(dict(kw='then', kind=k, a=rng.choice(c['events']), b=rng.choice([0, 7]), n=0))
